@@ -71,6 +71,8 @@ struct PeerS {
   char sel = 'a';
   int budget = 0;
   bool ignore_cancel = false;
+  uint32_t x_idx = 0, x_pos = 0;   // selector 'x': overwrite the bytes at offset x_pos of piece x_idx with x_bytes
+  std::string x_bytes;
   std::deque<Req> pending;
   bool choking = false;
   bool mid = false;           // a block begun with B and not yet completely sent
@@ -94,6 +96,8 @@ struct Ctx {
   uint32_t blocks_per_piece = 1;
   int clock_s = 0;
   bool stuck = false;
+  bool stale = false;          // the stall is the known one: every candidate has a finished transfer on every open block
+  std::set<uint32_t> tainted;  // pieces for which some peer ever sent bytes that are not the original content
   // stats
   unsigned n_write_ops = 0, n_hash_ok = 0, n_hash_fail = 0, n_dissimilar = 0, n_leader_change = 0, n_disc = 0;
 };
@@ -156,6 +160,12 @@ static void oracle(Ctx& c, const char* when) {
   if (c.done_signalled || T->dl.file_list()->is_done()) {
     if (bits.find('0') != std::string::npos && c.viol.size() < 4) c.viol.push_back("done-with-missing-pieces");
     if (disk_content(T) != T->content && c.viol.size() < 4) c.viol.push_back("done-files-differ-from-content");
+    for (auto& f : T->spec.files) {
+      std::error_code ec;
+      auto sz = std::filesystem::file_size(T->root + "/" + f.path, ec);
+      if ((ec || sz != f.length) && c.viol.size() < 4)
+        c.viol.push_back("done-file-length:" + f.path + "=" + (ec ? std::string("missing") : std::to_string(sz)) + "!=" + std::to_string(f.length));
+    }
   }
 }
 
@@ -237,6 +247,13 @@ static std::string snapshot(Ctx& c) {
     if (pcb == nullptr) continue;
     o << (fn ? "" : ",") << p->id;
     fn = false;
+  }
+  o << ";fc=";
+  bool ff = true;
+  for (auto& p : c.peers) {
+    if (p->info == nullptr || p->info->failed_counter() == 0) continue;
+    o << (ff ? "" : ",") << p->id << ":" << p->info->failed_counter();
+    ff = false;
   }
   return o.str();
 }
@@ -329,6 +346,9 @@ static void on_chunk_done(uint32_t idx) {
   } else {
     c.n_hash_fail++;
     c.async_ev.push_back("H:" + std::to_string(idx) + ":fail");
+    // every byte any peer ever sent for this piece was the original content, yet the piece does not verify:
+    // the client itself damaged honest data (and an honest peer can then never complete the piece)
+    if (!c.tainted.count(idx) && c.viol.size() < 4) c.viol.push_back("honest-piece-failed:piece=" + std::to_string(idx));
     std::string d = hex(sha1_raw(disk_piece(T, idx)));
     c.last_probe[idx] = d;
     c.async_ev.push_back("X:" + std::to_string(idx) + ":" + d);
@@ -369,10 +389,44 @@ static std::string answer_data(Ctx& c, PeerS* p, const Req& r) {
     size_t pos = ((p->variant - 1) % 3) * (r.len - 1) / 2;
     d[pos] = char(d[pos] ^ p->variant);
   }
+  if (p->variant != 0 && p->sel == 'x' && r.idx == p->x_idx)
+    for (size_t k = 0; k < p->x_bytes.size(); k++) {
+      uint64_t a = (uint64_t)p->x_pos + k;
+      if (a >= r.off && a < (uint64_t)r.off + r.len) d[a - r.off] = p->x_bytes[k];
+    }
+  if (r.idx < T->piece_count() && (uint64_t)r.off + r.len <= T->piece_size(r.idx) && d != T->range(r.idx, r.off, r.len)) c.tainted.insert(r.idx);
   return d;
 }
 
 static void wait_hash(Ctx& c);
+static bool usable(Ctx& c, PeerS* p);
+// The known stall (finding liveness-stale-transfer): every incomplete piece is listed, nothing is being hashed, and on
+// EVERY open (unfinished) block EVERY connected candidate peer has a FINISHED transfer left in Block::m_transfers
+// (so Block::insert refuses it) -- and at least one piece went through do_all_failed (a hash failure happened).
+static bool stall_is_stale(Ctx& c) {
+  Torrent* T = c.T;
+  if (c.n_hash_fail == 0) return false;
+  auto* tl = T->main()->delegator()->transfer_list();
+  std::string bits = T->completed_bits();
+  for (uint32_t i = 0; i < bits.size(); i++)
+    if (bits[i] != '1' && tl->find(i) == tl->end()) return false;
+  if (torrent::ThreadMain::thread_main()->hash_queue()->has(hq_id(T))) return false;
+  bool any_open = false;
+  for (torrent::BlockList* bl : *tl)
+    for (auto& blk : *bl) {
+      if (blk.is_finished()) continue;
+      any_open = true;
+      if (!blk.queued()->empty() || blk.leader() != nullptr) return false;
+      for (auto& p : c.peers) {
+        if (!usable(c, p.get())) continue;
+        bool has = false;
+        for (auto* t : *blk.transfers())
+          if (t->peer_info() == p->info && t->is_finished() && !t->is_valid()) has = true;
+        if (!has) return false;
+      }
+    }
+  return any_open;
+}
 // A verdict on a piece to which p supplied a block may disconnect p (mark_failed_peers /
 // mark_and_disconnect_if_single_peer / erase_seeders) before the bytes p is about to send are read, and the
 // recorded order [stimulus, verdict] would then be wrong: let such verdicts arrive first.
@@ -473,6 +527,19 @@ static std::string run_case(Session& S, const std::string& line) {
   else spec.files = {{"a.bin", total}};
   uint32_t np = (uint32_t)((total + plen - 1) / plen);
   if (have.size() != np) return "BADCASE:have";
+  uint32_t pre = kv.count("pre") ? std::stoul(kv["pre"]) : 0;
+  if (pre > 0) {
+    // stale files already in the download directory: <length + pre> bytes of 0xee each (Session::add_torrent with
+    // write_files=false only creates the directory; its path is scratch/s<counter>/<name>)
+    if (have.find('1') != std::string::npos) return "BADCASE:pre";
+    std::string root = S.scratch() + "/s" + std::to_string(S.m_counter) + "/" + spec.name;
+    for (auto& f : spec.files) {
+      std::filesystem::create_directories(std::filesystem::path(root + "/" + f.path).parent_path());
+      std::ofstream out(root + "/" + f.path, std::ios::binary | std::ios::trunc);
+      std::string junk((size_t)f.length + pre, char(0xee));
+      out.write(junk.data(), (std::streamsize)junk.size());
+    }
+  }
   if (have.find('1') == std::string::npos) spec.write_files = false;
   else for (uint32_t i = 0; i < np; i++) if (have[i] != '1') spec.corrupt_pieces.push_back(i);
   c.blocks_per_piece = (plen + torrent::Delegator::block_size - 1) / torrent::Delegator::block_size;
@@ -498,6 +565,10 @@ static std::string run_case(Session& S, const std::string& line) {
         if (tok.size() > 1) p->sel = tok[1];
         size_t e = 2;
         if (p->sel == 'k') { p->budget = atoi(tok.c_str() + 2); while (e < tok.size() && isdigit((unsigned char)tok[e])) e++; }
+        if (p->sel == 'x') {
+          unsigned a = 0, b = 0; char hx[200] = {0};
+          if (sscanf(tok.c_str() + 2, "%u_%u_%199[0-9a-f]", &a, &b, hx) == 3) { p->x_idx = a; p->x_pos = b; p->x_bytes = unhex(hx); }
+        }
         if (tok.find('i', 1) != std::string::npos && tok.back() == 'i') p->ignore_cancel = true;
       }
       c.peers.push_back(std::move(p));
@@ -566,6 +637,7 @@ static std::string run_case(Session& S, const std::string& line) {
         p->pending.pop_front();
         uint32_t n = (uint32_t)atoi(f[2].c_str());
         if (n == 0 || n == r.len) n = r.len + 1;
+        c.tainted.insert(r.idx);
         send_piece_header(c, p, r.idx, r.off, n);
         if (usable(c, p)) { p->mid = true; p->rest = std::string(n, 'x'); }
       } else if (kind == 'U' && f.size() > 4) {
@@ -612,6 +684,7 @@ static std::string run_case(Session& S, const std::string& line) {
           if (!any) {
             if (++dry > 3) {
               for (auto& pp : c.peers) if (pp->variant == 0 && !pp->choking && usable(c, pp.get())) c.stuck = true;
+              if (c.stuck) c.stale = stall_is_stale(c);
               break;
             }
             pass_time(c, 125);
@@ -633,7 +706,7 @@ static std::string run_case(Session& S, const std::string& line) {
   for (auto& v : c.viol) verdict += " " + v;
   out += " || " + verdict + " ;; done=" + std::to_string(T->dl.file_list()->is_done() ? 1 : 0) + " sig=" + std::to_string(c.done_signalled ? 1 : 0) +
          " completed=" + bits + " writes=" + std::to_string(c.n_write_ops) + " hok=" + std::to_string(c.n_hash_ok) +
-         " hfail=" + std::to_string(c.n_hash_fail) + " disc=" + std::to_string(c.n_disc) + " stuck=" + std::to_string(c.stuck ? 1 : 0);
+         " hfail=" + std::to_string(c.n_hash_fail) + " disc=" + std::to_string(c.n_disc) + " stuck=" + std::to_string(c.stuck ? 1 : 0) + " stale=" + std::to_string(c.stale ? 1 : 0);
   size_t pend = 0;
   for (auto& p : c.peers) pend += p->pending.size();
   out += " pending=" + std::to_string(pend) + " listed=" + std::to_string(T->main()->delegator()->transfer_list()->size());
